@@ -20,13 +20,25 @@ BASE = ['sync', 'grp']
 SELF = 'A'
 
 
+def _canon(n):
+    return n[:-3] if n.endswith('~nm') else n
+
+
 def node_name(n):
+    if n.endswith('~nm'):
+        # the same name with a non-minimal (3-byte) Length in its last component: every decoder of the library reads it as /node/<n>
+        comps = tlvref.name_from_uri('/node/' + n[:-3])
+        last = comps[-1]
+        t, n1 = tlvref.dec_var(last, 0)
+        ln, n2 = tlvref.dec_var(last, n1)
+        comps[-1] = last[:n1] + b'\xfd' + ln.to_bytes(2, 'big') + last[n1 + n2:]
+        return tlvref.name_tlv(comps)
     return tlvref.name_tlv(tlvref.name_from_uri('/node/' + n))
 
 
 def node_key(n):
-    """dict key the library uses: Name.to_bytes(node_id) = the encoded Name TLV"""
-    return bytes(node_name(n))
+    """dict key of a node: its name in canonical encoding"""
+    return bytes(node_name(_canon(n)))
 
 
 def sv_component(entries, kind='ok'):
@@ -251,7 +263,7 @@ class SvsWorld(World):
         if op.get('kind', 'ok') != 'ok' or op.get('extra_comp') or op.get('short') or not op['sv'] \
                 or any(n is None or q is None for n, q in op['sv']):
             self.stats['fault.malformed_vector'] += 1
-        elif any(n == SELF and q is not None and q > self.inst.self_seq for n, q in op['sv']):
+        elif any(n is not None and _canon(n) == SELF and q is not None and q > self.inst.self_seq for n, q in op['sv']):
             self.stats['fault.overclaiming_vector'] += 1
         self.log('rx', nonce=op['nonce'], sv=op['sv'], vkind=op.get('kind', 'ok'), extra=bool(op.get('extra_comp')),
                  short=bool(op.get('short')), delivered=self.face.deliver(wire), state=self.inst.state.name)
@@ -489,14 +501,11 @@ def classify_vector(rx, own_seq, selfname=None):
         vec[key] = max(s, vec.get(key, -1))
     if not rx['sv']:
         return 'reject', {}
-    if any(n == selfname and s is not None and own_seq is not None and s > own_seq for n, s in rx['sv']):
+    if any(n is not None and _canon(n) == selfname and s is not None and own_seq is not None and s > own_seq for n, s in rx['sv']):
         return 'reject', {}
     if partial:
         return 'unclear', vec
-    dup = len({n for n, _s in rx['sv']}) != len(rx['sv'])
-    if dup:
-        return 'unclear', vec
-    return 'accept', vec
+    return 'accept', vec        # (a node listed twice counts with its highest number: entry-wise maximum)
 
 
 def _nz(d):
@@ -580,9 +589,17 @@ def generate(rng, seed, tier='quick'):
             if n in big and s < big[n] and mode in ('newer', 'mixed'):
                 s += big[n]
             sv.append([n, s])
+        if sv and rng.random() < 0.07:
+            # one node listed twice, with different numbers, in either order
+            n0, s0 = rng.choice(sv)
+            if s0 is not None:
+                sv.insert(rng.randrange(len(sv) + 1), [n0, max(0, s0 + rng.choice([-2, -1, 1, 2]))])
+        if sv and rng.random() < 0.06:
+            k0 = rng.randrange(len(sv))
+            sv[k0] = [sv[k0][0] + '~nm', sv[k0][1]]         # non-minimal encoding of that node's name
         op = {'at': t, 'op': 'rx', 'nonce': nonce, 'sv': sv}
         if mode == 'overclaim':
-            sv.insert(rng.randrange(len(sv) + 1), [SELF, model_local[SELF] + rng.randint(1, 3)])
+            sv.insert(rng.randrange(len(sv) + 1), [SELF + ('~nm' if rng.random() < 0.4 else ''), model_local[SELF] + rng.randint(1, 3)])
             sv[:] = [e for i, e in enumerate(sv) if e[0] != SELF or e[1] > model_local[SELF] or rng.random() < 0.5]
         elif mode == 'malformed':
             m = rng.choice(['truncated', 'badlen', 'generic', 'extra_comp', 'short', 'empty', 'no_node', 'no_seq', 'no_seq'])
@@ -600,8 +617,8 @@ def generate(rng, seed, tier='quick'):
                 sv[rng.randrange(len(sv))][1] = None
         else:
             for n, s in sv:
-                if s is not None and n is not None and s > model_local.get(n, 0) and n != SELF:
-                    model_local[n] = s
+                if s is not None and n is not None and s > model_local.get(_canon(n), 0) and _canon(n) != SELF:
+                    model_local[_canon(n)] = s
             last_trigger = t
         ops.append(op)
     extra = {}
